@@ -148,3 +148,38 @@ def _gen_tensor_ranks():
 
 
 GEN = {"Equation.__get_tensor_ranks": _gen_tensor_ranks}
+
+
+# ---------------------------------------------------------------- C18: terms over different rank sets
+UF = {"TRC": (["V"], "V")}      # Counter of the ranks of one term (abstract value determined by the term)
+
+
+def all_terms(eq):
+    return eq.find_data("times") + eq.find_data("take")
+
+
+CONTRACTS.update({
+    "Equation.__get_term_ranks": dict(
+        pure=True, fresh_result=True, assumed_body=True,
+        ensures=[("multiset", "Counter(result) == TRC(term)")],
+    ),
+    "Equation.__build_einsum_ranks": dict(
+        modifies=["self.einsum_ranks"],
+        requires=["len(all_terms(self.equation)) > 0"],
+        raises={"ValueError": "any(TRC(all_terms(self.equation)[j]) != TRC(all_terms(self.equation)[0]) "
+                              "    for j in range(1, len(all_terms(self.equation))))"},
+        ghost_after={"self.einsum_ranks = Equation.__get_tensor_ranks(output_ranks)": "g_out = self.einsum_ranks.copy()\n"},
+        ensures_env="exit",
+        ensures=[("output_ranks_first", "self.einsum_ranks[:len(g_out)] == g_out"),
+                 ("all_term_ranks_present", "all(r in self.einsum_ranks for r in term_ranks)")],
+        loops={
+            0: dict(idx="k",
+                    inv=[("same_so_far", "all(TRC(all_terms(self.equation)[j]) == TRC(all_terms(self.equation)[0]) for j in range(1, 1 + k))"),
+                         ("first", "Counter(term_ranks) == TRC(all_terms(self.equation)[0])")]),
+            1: dict(idx="k1", modifies=["self.einsum_ranks[]"],
+                    inv=[("prefix", "self.einsum_ranks[:len(g_out)] == g_out and len(self.einsum_ranks) >= len(g_out)"),
+                         ("present", "all(term_ranks[j] in self.einsum_ranks for j in range(k1))"),
+                         ("own", "not same_ref(self.einsum_ranks, term_ranks) and not same_ref(self.einsum_ranks, g_out)")]),
+        },
+    ),
+})
